@@ -3,7 +3,7 @@ C02 (a sample's clusters, from the raw image bytes): the chain is read off the r
 image, not assumed resolved.
 -/
 import Smpl.Props.C02
-import Smpl.Props.C07RC
+import Smpl.Props.C07RP
 
 namespace Smpl.Props.C02
 open Smpl Smpl.Roland Smpl.Alloc Smpl.Props.C07
@@ -53,16 +53,16 @@ theorem parseFat_links (b : Bytes) (fat : Fat) (h : parseFat (Img.ofBytes b) = .
 
 /-- **C02 (a sample's clusters, from the raw image).** If the FAT area of the image parses, and the
 raw FAT holds a chain `c` (each cluster's word names the next cluster, the last one's word is an end
-mark) whose head is an allocatable cluster no FAT word points to, then the file that starts at that
+mark) whose head is an allocatable cluster — other FAT words may point at it or into the chain —, then the file that starts at that
 head with leading-cluster offset `top` consists of exactly the clusters of `c` after the first
 `top`, in chain order — for every order of the clusters. -/
 theorem C02_clusters_from_image (b : Bytes) (fat : Fat) (h : parseFat (Img.ofBytes b) = .ok fat)
     (c : List Nat) (hc : RawChain (rawFat b).toArray c) (hc0 : 2 ≤ c.headD 0)
-    (hc0hi : c.headD 0 < FAT_N - 9) (hnopred : ∀ y : Nat, (rawFat b).toArray[y]? ≠ some (c.headD 0))
+    (hc0hi : c.headD 0 < FAT_N - 9)
     (top : Nat) :
     fileClusters fat (c.headD 0) top = .ok (c.drop top) := by
   obtain ⟨hdec, hlen⟩ := parseFat_links b fat h
-  have hwf := C07_roland_wf (rawFat b) fat.links hdec c hc hc0 (by rw [hlen]; exact hc0hi) hnopred
+  have hwf := C07_roland_complete (rawFat b) fat.links hdec c hc hc0 (by rw [hlen]; exact hc0hi)
   apply C02_file_clusters
   rw [← hlen]
   exact hwf.2
